@@ -8,7 +8,7 @@ from dataclasses import dataclass, field
 from typing import Dict, List, Optional, Tuple, Iterator, Set, Any
 
 
-from .inline import inline_new_helpers, load_inventory, normalize_aliases, desugar_modern_syntax
+from .inline import inline_new_helpers, load_inventory, normalize_aliases, desugar_modern_syntax, relocate_moved_definitions, _abs_module
 
 
 class AnalysisError(Exception):
@@ -110,7 +110,7 @@ class FuncInfo:
 
     def loc(self, node: Optional[ast.AST] = None) -> str:
         n = node if node is not None else self.node
-        return f"{self.module.relpath}:{getattr(n, '_src_lineno', getattr(n, 'lineno', self.lineno))}"
+        return f"{getattr(n, '_src_file', self.module.relpath)}:{getattr(n, '_src_lineno', getattr(n, 'lineno', self.lineno))}"
 
     def fq(self) -> str:
         return f"{self.module.name}:{self.qualname}"
@@ -212,6 +212,7 @@ class Program:
         self.inventory = load_inventory() if inline else set()
         self.new_functions: Set[str] = set()
         self.inline_log: List[str] = []
+        parsed = []
         for pkg in packages:
             d = os.path.join(self.repo, pkg)
             if not os.path.isdir(d):
@@ -227,16 +228,38 @@ class Program:
                     tree = ast.parse(src, filename=path)
                 except SyntaxError as e:
                     raise AnalysisError(f"cannot parse {path}: {e}")
-                # code cut out into functions the baseline does not have is pasted back into its callers (sa/inline.py)
                 desugar_modern_syntax(tree)        # match / walrus -> if-chains / assignments (no such syntax in the baseline tree)
                 if not os.environ.get('SA_NO_ALIAS'):      # selector aliases read through (sa/inline.py normalize_aliases)
                     normalize_aliases(tree)
-                new, log = inline_new_helpers(tree, modname, self.inventory)
-                self.new_functions |= {f"{modname}:{q}" for q in new}
-                self.inline_log += log
-                m = Module(modname, path, os.path.relpath(path, self.repo), src, tree)
-                self.modules[modname] = m
-                self._index_module(m)
+                parsed.append((modname, path, src, tree))
+        if inline:
+            from .inline import load_inventory_extras
+            from .callstyle import restore_call_style, propagate_new_constants
+            base_globals, style = load_inventory_extras()
+            from .callstyle import loops_to_comprehensions
+            for mn, _, _, t in parsed:
+                self.inline_log += propagate_new_constants(t, mn, base_globals)
+                k = loops_to_comprehensions(t)
+                if k:
+                    self.inline_log.append(f"{mn}: {k} single-statement building loop(s) read as comprehensions")
+            n_style = restore_call_style({mn: t for mn, _, _, t in parsed}, style)
+            if n_style:
+                self.inline_log.append(f"{n_style} argument(s) respelled to the baseline's positional/keyword style")
+        # baseline definitions that were moved to another module are analysed where the baseline has them (sa/inline.py)
+        self.inline_log += relocate_moved_definitions({mn: t for mn, _, _, t in parsed},
+                                                      {mn: os.path.relpath(p, self.repo) for mn, p, _, _ in parsed}, self.inventory)
+        from .inline import adopt_foreign_helpers
+        self.inline_log += adopt_foreign_helpers({mn: t for mn, _, _, t in parsed}, {mn: os.path.relpath(p, self.repo) for mn, p, _, _ in parsed}, self.inventory)
+        from .inline import methods_from_function_aliases
+        for modname, path, src, tree in parsed:
+            self.inline_log += methods_from_function_aliases(tree, modname, self.inventory)
+            # code cut out into functions the baseline does not have is pasted back into its callers (sa/inline.py)
+            new, log = inline_new_helpers(tree, modname, self.inventory)
+            self.new_functions |= {f"{modname}:{q}" for q in new}
+            self.inline_log += log
+            m = Module(modname, path, os.path.relpath(path, self.repo), src, tree)
+            self.modules[modname] = m
+            self._index_module(m)
         self._parents: Dict[int, ast.AST] = {}
 
     def is_new_helper(self, f: "FuncInfo") -> bool:
@@ -264,7 +287,7 @@ class Program:
                 local = a.asname or a.name.split('.')[0]
                 m.imports[local] = ('module', a.name if a.asname else a.name.split('.')[0])
         elif isinstance(st, ast.ImportFrom):
-            mod = st.module or ''
+            mod = _abs_module(m.name, st, is_pkg=m.path.endswith('__init__.py'))
             for a in st.names:
                 if a.name == '*':
                     m.star_imports.append(mod)
